@@ -170,6 +170,7 @@ class ArrayRun(scansim.Run):
             if not cands:
                 raise Unsupported('member %s has no body' % fn)
             g = cands[0]
+            HELPERS_RUN.add((g.get('file'), g.get('line')))
             sub = ArrayRun(self.prog, g, w, depth=self.depth + 1, budget=self.budget)
             for p_, a in zip(g['params'], e.get('a', [])):
                 pt = T(g, p_['t'])
@@ -188,6 +189,9 @@ class ArrayRun(scansim.Run):
             r = sub.run()
             return r
         return scansim.Run.call(self, e)
+
+
+HELPERS_RUN = set()      # (file, line) of the members of Array interpreted as callees of the member being decided
 
 
 class World(object):
